@@ -9,45 +9,81 @@ From QV.Model Require Import C10_Estimators.
 From QV.Proofs Require Import C10_Estimators.
 Import ListNotations.
 
-(* ---- 1. the choice of the projection is total and exactly per flags *)
+(* ---- 1. the choice of the projection is total and exactly per flags; the physical projection runs in the OPTION's order.
+   [C10_select] is the model the harness compares with the implementation: the code WITH the repair
+   /verif/fixes/qoperation-func-proj-physical-with-var-order.diff *)
 Theorem C10_decision_table : forall t o,
   let d := C10_select None t o in
   (d_kind d = KPhysical <-> o_eq o = true /\ o_ineq o = true) /\
   (d_kind d = KEq <-> o_eq o = true /\ o_ineq o = false) /\
   (d_kind d = KIneq <-> o_eq o = false /\ o_ineq o = true) /\
   (d_kind d = KIdentity <-> o_eq o = false /\ o_ineq o = false) /\
-  d_on_para d = t_on_para t /\ d_order d = t_order t /\ d_maxit d = o_maxit_proj o.
-Proof. intros t o. cbn. destruct (C10_kind_table (o_eq o) (o_ineq o)) as [A [B [C D]]]. repeat split; tauto. Qed.
+  d_on_para d = t_on_para t /\ d_order d = o_order o /\ d_maxit d = o_maxit_proj o.
+Proof. exact C10_select_table. Qed.
 Print Assumptions C10_decision_table.
 
 (* the function that is installed, by cases on the flags *)
 Theorem C10_decision_table_apply :
   forall (V : Type) (Pphys : C10_order -> bool -> Z -> V -> V) (Peq Pineq : bool -> V -> V) t o,
   C10_apply Pphys Peq Pineq (C10_select None t o) =
-  (if o_eq o then (if o_ineq o then Pphys (t_order t) (t_on_para t) (o_maxit_proj o) else Peq (t_on_para t))
+  (if o_eq o then (if o_ineq o then Pphys (o_order o) (t_on_para t) (o_maxit_proj o) else Peq (t_on_para t))
    else (if o_ineq o then Pineq (t_on_para t) else (fun x => x))).
 Proof. exact C10_apply_table. Qed.
 Print Assumptions C10_decision_table_apply.
 
-(* a projection that is already installed is kept, whatever the new option says (the code's early return) *)
+(* a projection the object keeps ([cached]) is the one used, whatever the new option says *)
 Theorem C10_decision_cached_kept : forall d t o, C10_select (Some d) t o = d.
 Proof. exact C10_select_cached. Qed.
 Print Assumptions C10_decision_cached_kept.
 
-(* as coded, the option's mode_proj_order has no influence on the installed projection (finding C10-1) *)
-Theorem C10_option_order_ignored : forall c t e i ord ord' mx,
-  C10_select c t {| o_eq := e; o_ineq := i; o_order := ord; o_maxit_proj := mx |} =
-  C10_select c t {| o_eq := e; o_ineq := i; o_order := ord'; o_maxit_proj := mx |}.
-Proof. exact C10_select_ignores_option_order. Qed.
-Print Assumptions C10_option_order_ignored.
+(* ---- 1b. histories: the algorithm object re-used over ANY sequence of configurations (jobs).  [C10_configure] is the code WITH the
+   repair /verif/fixes/pgd-cached-func-proj.diff (owner C13).  A projection handed to the constructor stays installed; otherwise
+   the installed projection is the one the decision table derives from the LAST configuration, whatever came before — so with both
+   constraint options on in the current job the physical projection is installed also on a re-used object. *)
+Theorem C10_reused_algorithm_keeps_given_projection : forall cfgs a d, a_given a = Some d ->
+  C10_installed (fold_left C10_configure cfgs a) = Some d.
+Proof. exact C10_configure_seq_keeps_given. Qed.
+Print Assumptions C10_reused_algorithm_keeps_given_projection.
+
+Theorem C10_reused_algorithm_installs_projection_of_last_configuration : forall cfgs a c, a_given a = None ->
+  C10_installed (fold_left C10_configure (cfgs ++ [c]) a) = Some (C10_select None (fst c) (snd c)).
+Proof. exact C10_configure_seq_last. Qed.
+Print Assumptions C10_reused_algorithm_installs_projection_of_last_configuration.
+
+(* AS CODED BEFORE FIX pgd-cached-func-proj ([C10_configure_before_fix], the pinned tree): the projection derived from the FIRST
+   configuration stayed installed for every later job (e.g. identity from a first job with both options off, then a job with both
+   options on: no projection at all).  Statement about the labelled definition only. *)
+Theorem C10_reused_algorithm_kept_first_projection_before_fix : forall cfgs a c, C10_installed a = None ->
+  C10_installed (fold_left C10_configure_before_fix (c :: cfgs) a) = Some (C10_select None (fst c) (snd c)).
+Proof. exact C10_configure_before_fix_seq_first. Qed.
+Print Assumptions C10_reused_algorithm_kept_first_projection_before_fix.
+
+(* the order stored in the template object has no influence on the installed projection *)
+Theorem C10_template_order_irrelevant : forall c p ord ord' o,
+  C10_select c {| t_on_para := p; t_order := ord |} o = C10_select c {| t_on_para := p; t_order := ord' |} o.
+Proof. exact C10_select_ignores_template_order. Qed.
+Print Assumptions C10_template_order_irrelevant.
+
+(* AS CODED BEFORE FIX qoperation-func-proj-physical-with-var-order ([C10_select_before_fix], the pinned tree): the option's
+   mode_proj_order had no influence on the installed projection; that selection is the repaired one run with the template's
+   order, and the two differ exactly when the option asks for the other order.  Statements about the labelled definition only. *)
+Theorem C10_option_order_ignored_before_fix : forall c t e i ord ord' mx,
+  C10_select_before_fix c t {| o_eq := e; o_ineq := i; o_order := ord; o_maxit_proj := mx |} =
+  C10_select_before_fix c t {| o_eq := e; o_ineq := i; o_order := ord'; o_maxit_proj := mx |}.
+Proof. exact C10_select_before_fix_ignores_option_order. Qed.
+Print Assumptions C10_option_order_ignored_before_fix.
+
+Theorem C10_before_fix_agrees_iff_orders_equal : forall t o,
+  C10_select_before_fix None t o = C10_select None t o <-> t_order t = o_order o.
+Proof. exact C10_select_before_fix_differs. Qed.
+Print Assumptions C10_before_fix_agrees_iff_orders_equal.
 
 (* ---- 2. backtracking: the step size lies in (0,1] and is a power of 1/2; every step is a convex combination *)
 Theorem C10_backtracking_alpha : forall (F : OF) n P f g mu gamma afuel x,
   let a := C10_bt_alpha F n P f g mu gamma afuel x in
   kle F (c0 F) a /\ kle F a (c1 F) /\ a <> c0 F /\
   exists j, (j <= afuel)%nat /\ a = Nat.iter j (fun b => cmul F (C10_half F) b) (c1 F).
-Proof. intros F n P f g mu gamma afuel x a. destruct (C10_bt_alpha_range F n P f g mu gamma afuel x) as [A [B C]].
-  repeat split; try assumption. apply C10_alpha_search_pow. Qed.
+Proof. exact C10_bt_alpha_full. Qed.
 Print Assumptions C10_backtracking_alpha.
 
 Theorem C10_backtracking_step_convex_combination : forall (F : OF) n P f g mu gamma afuel x i,
@@ -109,9 +145,7 @@ Print Assumptions C10_fista_iterates_feasible.
 (* the loops return a value exactly when max_iteration >= 1 (0: the code fails on an unbound variable) *)
 Theorem C10_run_returns_iff : forall (F : OF) (S : Type) (step : nat -> S -> S) cur stop maxit s0,
   (exists r, C10_run F step cur stop maxit s0 = Some r) <-> (0 < maxit)%nat.
-Proof. intros F S step cur stop maxit s0. split.
-  - intros [r E]. destruct maxit; [discriminate|lia].
-  - apply C10_run_some. Qed.
+Proof. exact C10_run_some_iff. Qed.
 Print Assumptions C10_run_returns_iff.
 
 (* ---- 4. physical projection: returns an output of the projection applied last; fixes physical points *)
@@ -129,6 +163,39 @@ Theorem C10_proj_physical_fixes_physical_points :
   exists r, C10_proj_physical F n Peq Pineq eps order maxit x0 = Some r /\ veq n r x0.
 Proof. exact C10_proj_physical_fix. Qed.
 Print Assumptions C10_proj_physical_fixes_physical_points.
+
+(* ---- 4b. both constraint options on: the installed closure ([C10_phys_total]: calc_proj_physical_with_var on stacked vectors, in the
+   option's order, cap maxitp >= 1) maps into ANY set Cl that contains every output of the projection applied last
+   ([C10_last_proj]: P_ineq for "eq_ineq", P_eq for "ineq_eq"); hence the result and every stored iterate of the three algorithms
+   satisfy the constraint projected last EXACTLY — any loss, gradient, step parameters, stopping rule, caps.  (The other constraint
+   holds to the stopping accuracy of the Dykstra loop only; that is measured per run, not proved.) *)
+Theorem C10_both_options_on_backtracking_iterates_satisfy_last_constraint :
+  forall (F : OF) n (Peq Pineq : vec -> vec) eps order maxitp, (0 < maxitp)%nat ->
+  forall (Cl : vec -> Prop), (forall z, Cl (C10_last_proj F Peq Pineq order z)) ->
+  forall (f : vec -> F) (g : vec -> vec) mu gamma afuel, C10_convex F Cl -> C10_ext F n Cl ->
+  forall stop maxit x0 r, Cl x0 ->
+  C10_bt_run F n (C10_phys_total F n Peq Pineq eps order maxitp) f g mu gamma afuel stop maxit x0 = Some r ->
+  Cl (fst r) /\ Forall Cl (snd r).
+Proof. exact C10_bt_physical_last_feasible. Qed.
+Print Assumptions C10_both_options_on_backtracking_iterates_satisfy_last_constraint.
+
+Theorem C10_both_options_on_momentum_iterates_satisfy_last_constraint :
+  forall (F : OF) n (Peq Pineq : vec -> vec) eps order maxitp, (0 < maxitp)%nat ->
+  forall (Cl : vec -> Prop), (forall z, Cl (C10_last_proj F Peq Pineq order z)) ->
+  forall (f : vec -> F) (g : vec -> vec) gam z0 mag stop maxit x0 m0 r, Cl x0 ->
+  C10_mom_run F (C10_phys_total F n Peq Pineq eps order maxitp) f g gam z0 mag stop maxit x0 m0 = Some r ->
+  Cl (ms_x F (fst r)) /\ Forall Cl (snd r).
+Proof. exact C10_mom_physical_last_feasible. Qed.
+Print Assumptions C10_both_options_on_momentum_iterates_satisfy_last_constraint.
+
+Theorem C10_both_options_on_fista_iterates_satisfy_last_constraint :
+  forall (F : OF) n (Peq Pineq : vec -> vec) eps order maxitp, (0 < maxitp)%nat ->
+  forall (Cl : vec -> Prop), (forall z, Cl (C10_last_proj F Peq Pineq order z)) ->
+  forall (g : vec -> vec) delta stop maxit x0 r, Cl x0 ->
+  C10_fista_run F (C10_phys_total F n Peq Pineq eps order maxitp) g delta stop maxit x0 = Some r ->
+  Cl (snd (fst r)) /\ Forall Cl (snd r).
+Proof. exact C10_fista_physical_last_feasible. Qed.
+Print Assumptions C10_both_options_on_fista_iterates_satisfy_last_constraint.
 
 (* ---- 5. linear estimate of exact data; projected linear estimate of exact data of a physical object *)
 Theorem C10_linear_estimate_exact_recovery : forall (F : OF) nv nd (M A : mat) (b v : vec),
@@ -163,23 +230,25 @@ Print Assumptions C10_projected_linear_exact_data.
 (* ---- 6. the start point (origin object) satisfies the equality constraint, all four object types *)
 Theorem C10_origin_satisfies_eq_constraint : forall (F : OF) ty d2 m sd, (0 < m)%nat ->
   C10_eq_constraint F ty d2 m sd (C10_origin F ty d2 m sd).
-Proof. intros F [] d2 m sd Hm;
-  [apply C10_origin_eq_state|now apply C10_origin_eq_povm|apply C10_origin_eq_gate|now apply C10_origin_eq_mprocess]. Qed.
+Proof. exact C10_origin_eq_all. Qed.
 Print Assumptions C10_origin_satisfies_eq_constraint.
 
-(* ---- 7. REFUTED on the faithful model (finding C10-2): with on_para_eq_constraint=True the variable-level inequality
-   projection  to_var o P_psd o to_stacked  does NOT map into the PSD set, so the hypothesis "P maps into C" of the
-   feasibility theorems fails for the flag combination (eq off, ineq on).  Full statement that is false:
-     forall v, PSD (to_stacked (C10_proj_ineq_with_var to_stacked to_var Pineq v)).
+(* ---- 7. scope of the feasibility theorems.  The flags (eq off, ineq on) install the variable-level inequality projection
+   to_var o P_psd o to_stacked.  Under on_para_eq_constraint=True it does NOT map into the PSD set, so the hypothesis
+   "P maps into C" of the feasibility theorems is not available for that configuration.  This is NOT a refutation of the
+   property: the property is about "loss minimisation ... with the constraint options on", i.e. both algorithm constraint
+   options on, and this configuration has one of them off (the harness gives no physicality verdict there).
+   Statement that is false of the model:  forall v, PSD (to_stacked (C10_proj_ineq_with_var to_stacked to_var Pineq v)).
    Witness: diagonal two-qubit state, normalised Pauli basis (sd = 2), variables (IZ, ZI, ZZ) = (3/2, 0, 0):
-   the clipped matrix diag(1,0,1,0) is PSD, the returned variables (1,0,0) denote diag(3/4,-1/4,3/4,-1/4). *)
-Theorem C10_ineq_only_projection_with_para_eq_refuted :
+   the clipped matrix diag(1,0,1,0) is PSD, the returned variables (1,0,0) denote diag(3/4,-1/4,3/4,-1/4).
+   The same numbers are computed by the code (sub-check ineq_var). *)
+Theorem C10_ineq_only_projection_with_para_eq_not_into_psd :
   exists v : @vec Qc_OF,
     C10_d4_psdb Qc_OF (C10_d4_Pineq Qc_OF (C10_d4_to_stacked Qc_OF v)) = true /\
     C10_d4_psdb Qc_OF (C10_d4_to_stacked Qc_OF
        (C10_proj_ineq_with_var Qc_OF (C10_d4_to_stacked Qc_OF) (C10_d4_to_var Qc_OF) (C10_d4_Pineq Qc_OF) v)) = false.
-Proof. exists C10_wit. destruct C10_ineq_with_var_para_eq_refuted_wit as [_ [A [B _]]]. split; assumption. Qed.
-Print Assumptions C10_ineq_only_projection_with_para_eq_refuted.
+Proof. exact C10_ineq_with_var_para_eq_not_into_psd. Qed.
+Print Assumptions C10_ineq_only_projection_with_para_eq_not_into_psd.
 
 (* ------------------------------------------------------------------ non-vacuity, on concrete instances over Qc *)
 Definition q (n : Z) (d : positive) : Qc := Q2Qc (n # d).
@@ -210,6 +279,21 @@ Example C10_example_proj_physical :
              qeq (r 0%nat) (q 1 1) = true /\ qeq (r 1%nat) (q 0 1) = true).
 Proof. split; [apply C10_ex_E_ext|]. split; [apply C10_ex_Q_ext|]. split; [apply C10_ex_Peq_fixes|].
   split; [apply C10_ex_Pineq_fixes|]. eexists. split; [reflexivity|]. split; vm_compute; reflexivity. Qed.
+
+(* "constraint projected last": with E = {v0 = 1} (convex, extensional) every output of the projection applied last in order
+   "ineq_eq" lies in E, and with Q = {0 <= v1} every output of the one applied last in "eq_ineq" lies in Q; a concrete FISTA run
+   (P = the total physical projection in order ineq_eq, cap 5; g = 0) from the physical point (1, 2) stays there *)
+Example C10_example_last_constraint :
+  (forall z, C10_ex_E Qc_OF (C10_last_proj Qc_OF (C10_ex_Peq Qc_OF) (C10_ex_Pineq Qc_OF) IneqEq z)) /\
+  C10_convex Qc_OF (C10_ex_E Qc_OF) /\
+  (forall z, C10_ex_Q Qc_OF (C10_last_proj Qc_OF (C10_ex_Peq Qc_OF) (C10_ex_Pineq Qc_OF) EqIneq z)) /\
+  C10_convex Qc_OF (C10_ex_Q Qc_OF) /\
+  exists r, C10_fista_run Qc_OF (C10_phys_total Qc_OF 2 (C10_ex_Peq Qc_OF) (C10_ex_Pineq Qc_OF) (q 1 100) IneqEq 5)
+              (fun _ _ => 0%Qc) (q 1 10) (fun _ => false) 2 (fun i => if (i =? 0)%nat then q 1 1 else q 2 1) = Some r /\
+            qeq (snd (fst r) 0%nat) (q 1 1) = true /\ qeq (snd (fst r) 1%nat) (q 2 1) = true /\ length (snd r) = 3%nat.
+Proof. split; [apply C10_ex_last_eq|]. split; [apply C10_ex_E_convex|]. split; [apply C10_ex_last_ineq|].
+  split; [apply C10_ex_Q_convex|]. eexists. split; [reflexivity|].
+  split; [vm_compute; reflexivity|]. split; vm_compute; reflexivity. Qed.
 
 (* linear estimate: A = [[1,0],[0,1],[1,1]], M = (A^T A)^-1 = 1/3 [[2,-1],[-1,2]] *)
 Definition ex_A : @mat Qc_OF := fun i j => match i, j with 0%nat, 0%nat => q 1 1 | 1%nat, 1%nat => q 1 1 | 2%nat, _ => q 1 1 | _, _ => q 0 1 end.
